@@ -149,6 +149,17 @@ func FuzzEndorsement(f *testing.F) {
 		f.Add(b, uint8(i%2), uint8(i*11)) // verify.Endorsement / EndorsementProto with every SNP option shape
 		f.Add(b, uint8(5), uint8(i))
 	}
+	// endorsements carrying well-formed certificates of other key kinds / chain relationships (see
+	// TestSignerCertificates): the byte mutator does not turn one valid certificate into another
+	for i, c := range allPeerCerts() {
+		if c.chain == "self-signed" || c.chain == "issued-by-root" || i%7 == 0 {
+			b := peerEndorse(peerGolden(), c, peerSigKinds[i%len(peerSigKinds)])
+			f.Add(b, uint8(i%2), uint8(i))
+			if i%3 == 0 {
+				f.Add(b, uint8(5), uint8(i))
+			}
+		}
+	}
 	f.Fuzz(func(t *testing.T, data []byte, sel, opt uint8) {
 		if len(data) > fuzzMaxLen {
 			return
